@@ -7,8 +7,9 @@ def run(ctx):
     vlib.build_harness(ctx)
     mc.mc_meta(ctx)
     n = 2000 if ctx.thorough else 250
-    beh = mc.gen_meta(ctx, "beh.ndjson", n, 14, False, True, False, '{"label", "delete"}')
-    cfgs = [["--leaf", "64", "--final-download=false"] + (["--crc"] if ctx.seed % 2 else [])]
+    beh = mc.gen_meta(ctx, "beh.ndjson", n, 16, False, True, False, '{"label", "delete"}', labelw=8)
+    cfgs = [["--leaf", "4096", "--final-download=false"] + (["--crc"] if ctx.seed % 2 else []),
+            ["--leaf", "4096", "--final-download=false", "--batch", "1", "--apply", "--deep=false"]]
     if ctx.thorough:
         cfgs += [["--leaf", "64", "--batch", "1", "--final-download=false"], ["--leaf", "64", "--batch", "2", "--crc", "--final-download=false"]]
     results = vlib.parallel(mc.replay_jobs(ctx, beh, cfgs), max_workers=4)
